@@ -52,12 +52,41 @@ func hyphensStream(r *Run) {
 	render := func(items []tItem, kind string) (string, string) {
 		src := spell(defaultDelims, items)
 		cl := renderCaseLine(engineCfg{}, "", 0, src, env)
+		// primers: renders whose capture body / top level end with a right trim still armed; nothing of them may reach the next render
+		renderImpl(engineCfg{}, "", 0, "{% capture pa %}x {{ n -}}{% endcapture %}", RealiseEnv(env))
+		renderImpl(engineCfg{}, "", 0, "a {% if flag %}b{% endif -%}", RealiseEnv(env))
 		res := renderImpl(engineCfg{}, "", 0, src, RealiseEnv(env))
 		r.Count("kind=" + kind)
 		r.Count("res=" + strings.Fields(res)[0])
 		r.Nontrivial(cl)
 		r.Emit(cl, res)
 		return res, cl
+	}
+	// a template without hyphens loses nothing, whatever was rendered before it: capture and block bodies that begin and end with
+	// white space, and control bytes next to where a hyphen could stand
+	for _, c := range [][2]string{{"{% capture b %}  z  {% endcapture %}[{{ b }}]", "[  z  ]"}, {"  \n\ttext\n", "  \n\ttext\n"},
+		{"{% if flag %}  y{% endif %}|{% for i in (1..2) %} {{ i }}{% endfor %}", "  y| 1 2"}, {"{% capture c %}\n{{ n }}\n{% endcapture %}{{ c | size }}", "3"}} {
+		if !r.Mine() {
+			continue
+		}
+		res, cl := render([]tItem{{Kind: 'x', Text: ""}}, "primer-only") // runs the primers
+		_ = res
+		got := renderImpl(engineCfg{}, "", 0, c[0], RealiseEnv(env))
+		r.Emit(renderCaseLine(engineCfg{}, "", 0, c[0], env), got)
+		if got != "ok "+hexField(c[1]) {
+			r.Violate("C13", "template-without-hyphens-loses-nothing", cl+" then "+hexField(c[0]), fmt.Sprintf("after renders that ended with a right trim armed, %q renders %s, want %q", c[0], got, c[1]))
+		}
+	}
+	for _, c := range [][2]string{{"a\x00 {{- n }}", "a\x002"}, {"c\x1f{{- n -}}\x1fd", "c\x1f2\x1fd"}, {"{{ n -}}\x0b\x00 z", "2\x00 z"}, {"{% if flag -%}\x1b[0m{%- endif %}", "\x1b[0m"}} {
+		if !r.Mine() {
+			continue
+		}
+		got := renderImpl(engineCfg{}, "", 0, c[0], RealiseEnv(env))
+		cl := renderCaseLine(engineCfg{}, "", 0, c[0], env)
+		r.Emit(cl, got)
+		if got != "ok "+hexField(c[1]) {
+			r.Violate("C13", "hyphens-remove-only-whitespace", cl, fmt.Sprintf("%q renders %s, want %q (a control byte is not white space)", c[0], got, c[1]))
+		}
 	}
 	// a fixed family: a comment block between two literal texts next to a hyphenated object or tag. The comment leaves
 	// nothing behind, yet the texts on its two sides are two texts: the hyphen strips the one it faces and stops there
@@ -131,7 +160,7 @@ func hyphensStream(r *Run) {
 				pad := func() string {
 					return g.Pick([]string{"", " ", "  ", "\n", "\t", " \n ", " ", "  "})
 				}
-				core := g.Pick([]string{"x", "", "a b", "é"})
+				core := g.Pick([]string{"x", "", "a b", "é", "\x00", "\x1fz", "q\x1b", "\x7f", "\x0e\x01"}) // control bytes are not white space
 				items[i].Text = pad() + core + pad()
 				if items[i].Text == "" {
 					items[i].Text = " "
